@@ -167,9 +167,21 @@ type svc struct {
 	inner litefs.BackupClient
 	mu    sync.Mutex
 	fault map[string]int // armed faults -> byte position
-	ack   map[string]ltx.TXID
+	ack   map[string]ltx.TXID // largest acknowledgement since the primary last adopted the service's state
+	ever  map[string]ltx.TXID // largest acknowledgement ever
 	calls map[string]int
 	fired map[string]int
+	gate  chan struct{} // non-nil: uploads wait until it is closed (a slow or unreachable service)
+}
+
+func (s *svc) stall() { s.mu.Lock(); s.gate = make(chan struct{}); s.mu.Unlock() }
+func (s *svc) unstall() {
+	s.mu.Lock()
+	if s.gate != nil {
+		close(s.gate)
+		s.gate = nil
+	}
+	s.mu.Unlock()
 }
 
 func (s *svc) URL() string { return s.inner.URL() }
@@ -217,7 +229,24 @@ func (c *cutReader) Read(p []byte) (int, error) {
 func (s *svc) WriteTx(ctx context.Context, name string, r io.Reader) (ltx.TXID, error) {
 	s.mu.Lock()
 	s.calls["writetx"]++
+	gate := s.gate
 	s.mu.Unlock()
+	if gate != nil {
+		// Only batches of transaction files are held back. A snapshot upload keeps the
+		// database's read locks for as long as it lasts (DB.WriteSnapshotTo), so stalling
+		// one would simply lock the primary's writers out - known, and not what is tested.
+		hdr := make([]byte, ltx.HeaderSize)
+		n, _ := io.ReadFull(r, hdr)
+		r = io.MultiReader(bytes.NewReader(hdr[:n]), r)
+		var h ltx.Header
+		if n == ltx.HeaderSize && h.UnmarshalBinary(hdr) == nil && !h.IsSnapshot() {
+			select {
+			case <-gate:
+			case <-ctx.Done():
+				return 0, ctx.Err()
+			}
+		}
+	}
 	if _, ok := s.take(FWriteEarly); ok {
 		_, _ = io.Copy(io.Discard, r)
 		return 0, errInjected
@@ -231,6 +260,9 @@ func (s *svc) WriteTx(ctx context.Context, name string, r io.Reader) (ltx.TXID, 
 		s.mu.Lock()
 		if hwm > s.ack[name] {
 			s.ack[name] = hwm
+		}
+		if hwm > s.ever[name] {
+			s.ever[name] = hwm
 		}
 		s.mu.Unlock()
 		if _, ok := s.take(FWriteNoAck); ok {
@@ -265,6 +297,11 @@ func (s *svc) FetchSnapshot(ctx context.Context, name string) (io.ReadCloser, er
 }
 
 func (s *svc) acked(name string) ltx.TXID { s.mu.Lock(); defer s.mu.Unlock(); return s.ack[name] }
+func (s *svc) ackedEver(name string) ltx.TXID {
+	s.mu.Lock()
+	defer s.mu.Unlock()
+	return s.ever[name]
+}
 
 // fakeLFSC serves the LiteFS Cloud protocol (as lfsc.BackupClient speaks it) from
 // a directory of transaction files.
@@ -352,7 +389,7 @@ func runPlan(c *pbt.Case, p Plan) {
 	if err := fileStore.Open(); err != nil {
 		c.Failf("C14/setup", "%v", err)
 	}
-	sv := &svc{fault: map[string]int{}, ack: map[string]ltx.TXID{}, calls: map[string]int{}, fired: map[string]int{}}
+	sv := &svc{fault: map[string]int{}, ack: map[string]ltx.TXID{}, ever: map[string]ltx.TXID{}, calls: map[string]int{}, fired: map[string]int{}}
 	var ts *httptest.Server
 	if p.Client == "lfsc" {
 		ts = httptest.NewServer(fakeLFSC(fileStore))
@@ -496,6 +533,9 @@ func runPlan(c *pbt.Case, p Plan) {
 				c.Failf("C14/hwm-beyond-acknowledged", "%s: the primary publishes high-water mark %d, the service acknowledged at most %d", when, h, ack)
 			}
 		}
+		// a replica keeps the last mark it was sent; that value was published at a time
+		// when the service had acknowledged it
+		ack = uint64(sv.ackedEver(dbName))
 		if rp != nil && rp.Up {
 			if db := rp.Store.DB(dbName); db != nil {
 				if h := uint64(db.HWM()); h > ack {
@@ -585,6 +625,11 @@ func runPlan(c *pbt.Case, p Plan) {
 				c.Failf("C14/adopted-wrong-state", "%s: the primary went from %s to %s, the service was at %s", when, pPos, pAfter, sPos)
 			}
 			lineage = map[ref.Pos]bool{pAfter: true}
+			// From here on the primary knows what the service really holds: nothing the
+			// service acknowledged in a history that has just been discarded counts any more.
+			sv.mu.Lock()
+			sv.ack[dbName] = ltx.TXID(pAfter.TXID)
+			sv.mu.Unlock()
 			adoptions++
 			c.Label("adopted-service-state")
 		}
@@ -807,4 +852,6 @@ var syncProp = pbt.Prop[Plan]{ID: "C14", Name: "backup-sync", Gen: genPlan, Run:
 
 func TestProp_backup_sync(t *testing.T) { syncProp.Check(t) }
 
-func TestReplay(t *testing.T) { pbt.Replay(t, syncProp) }
+func TestReplay(t *testing.T) { pbt.Replay(t, syncProp, streamProp) }
+
+func bytesReader(b []byte) *bytes.Reader { return bytes.NewReader(b) }
